@@ -1,4 +1,4 @@
-import Nstd.Xml.LemmasHeap8
+import Nstd.Xml.LemmasHeap10
 /-
   Property C16, third sentence — "copies of element values are independent of their source" — about the heap
   model of `Xml::Variant` / `Xml::Element` handles (Heap.lean: blocks with reference counts, copies share the
@@ -130,6 +130,26 @@ theorem copy_then_any_history (s : St) (hi : Inv s) (d src : Nat) (hd : d < s.nv
   have h1 := independent ops (step s (.assign d src)) h0.1
   exact ⟨fun h => h1.2 src val h (by rw [h0.2.1]; exact hs) hc.2, fun h => h1.2 d val h (by rw [h0.2.1]; exact hd) hc.1⟩
 
+/-- Fuel of `release` (the bounded loop that stands for the recursion `clear()` → `~Element` → `~List<Variant>` →
+    `clear()` …): every iteration strictly decreases (live blocks + handles stored in live blocks + pending
+    handles), so the fuel the model hands over (`relFuel`) always suffices — ANY larger fuel yields the same heap,
+    i.e. the destruction runs to the end of its work list on every heap (no bound on depth or sharing). -/
+theorem release_fuel_suffices (s : St) (hi : Inv s) (pend : List Nat) (k g : Nat)
+    (hk : pend.length ≤ k) (hg : relFuel s k ≤ g) : release s.heap g pend = release s.heap (relFuel s k) pend :=
+  relFuel_enough s hi.fresh pend k g hk hg
+
+/-- `clear()` leaves the variable null. -/
+theorem clear_value (s : St) (hi : Inv s) (v : Nat) (hv : v < s.nv) :
+    repV (step s (.clear v)).heap .null ((step s (.clear v)).vars v) := by
+  show (step s (.clear v)).vars v = none
+  simp [step, step?, hv]
+
+/-- `vars[v] = String` leaves the variable with that text (whether it was written in place or into a fresh block). -/
+theorem setStr_target_value (s : St) (hi : Inv s) (v : Nat) (hv : v < s.nv) (t : Nstd.Xml.Bytes) :
+    repV (step s (.setStr v t)).heap (.text t) ((step s (.setStr v t)).vars v) := by
+  have : step s (.setStr v t) = assignStr s (.var v) (s.vars v) t := by simp [step, step?, hv]
+  rw [this]; exact setStr_value s hi v hv t
+
 /-- non-vacuity: two variables sharing an element with a nested text child; the shared blocks carry count 2 / 1 -/
 example :
     let h : Heap := ⟨fun i => if i = 0 then some ⟨2, .elem ⟨[97], [], [1]⟩⟩ else if i = 1 then some ⟨1, .text [120]⟩ else none⟩
@@ -139,11 +159,11 @@ example :
 
 /- OPEN: `refines` — the NEW value of the target variable: `abs (run (init nv) ops) = Spec.run ops` for a store of
    immutable trees per variable (the edit lands at the addressed path of the target's tree and nowhere else in it).
-   Proved of it: the copy has the source's value (`assign_copies_value`); what is not proved is the functional effect
-   of `mut` / `setStr` / `clear` on the target itself (tested by the correspondence run against the eager-copy
+   Proved of it: the copy has the source's value (`assign_copies_value`); `clear_value`, `setStr_target_value`; what is not proved is the functional effect
+   of `mut` on the target itself (tested by the correspondence run against the eager-copy
    reference).  Needs the sibling frame inside the target's own tree (the same `Excl` argument: a sibling of a path
    block is not a path block, else the count would be two).
-   OPEN: `release` fuel sufficiency (the driver's `relFuel` always suffices, i.e. nothing leaks): values do not
-   depend on it (all theorems above hold for every fuel); reference-count exactness is property C09 (area Rc). -/
+   Not claimed: that nothing leaks (every unreachable block is freed) — that is reference-count exactness,
+   property C09 (area Rc); here the counts are only bounded from below (`Inv`). -/
 
 end Nstd.Xml.Heap
